@@ -1779,6 +1779,9 @@ def group_nps():
            "instrument": ("instrument", "str"), "difficulty": ("difficulty", "str"), "start": ("start", "bound"), "end": ("end_", "bound"),
            "timedelta(0)": ("0", "ts")}
     calls = {"self._notes_per_second": ("leaf_nps_core", ["list:note_event", "ts", "ts"], "float", True)}
+    g = find_function(chart, "Chart.__getitem__")
+    out.append(Tr("leaf_chart_getitem", {"self.instrument_tracks": ("(c_tracks self)", "dict:str,dict:str,itrack"), "instrument": ("instrument", "str")}, {},
+                  "dict:str,itrack").function(g, [("self", "chart"), ("instrument", "str")], True))
     ATTRS["itrack"]["last_note_end_timestamp"] = ("last_note_end", "opt:ts")
     out.append(Tr("leaf_notes_per_second", env, calls, "float").function(
         f, [("self", "chart"), ("instrument", "str"), ("difficulty", "str"), ("start", "bound"), ("end_", "bound")], True))
